@@ -304,7 +304,7 @@ impl Check for Work {
         "work"
     }
     fn rule(&self) -> String {
-        "6 adaptive solvers x 13 problems (incl. rest and relaxation to a steady state) x tolerance x maximum step {0.5, 0.1}/L x horizon {1, 4}/L, minimum step 1e-7 x maximum (and 1e-6, 1e-12, 1e-18 x maximum at one tolerance); the derivative closure counts calls and enforces a budget of 4x the bound; signature = (solver, end kind, work-factor class)".into()
+        "6 adaptive solvers x 16 problems (incl. rest, rest exactly at the origin and relaxation to a steady state) x tolerance x maximum step {0.5, 0.1}/L x horizon {1, 4}/L, minimum step 1e-7 x maximum (and 1e-6, 1e-12, 1e-18 x maximum at one tolerance); the derivative closure counts calls and enforces a budget of 4x the bound; signature = (solver, end kind, work-factor class)".into()
     }
     fn axes(&self, t: Tier) -> Value {
         json!({"tol": t.pick(vec![1e-3, 1e-7], vec![1e-3, 1e-5, 1e-7, 1e-9]), "dtmax*L": [0.5, 0.1], "horizon*L": [1.0, 4.0], "W": W})
@@ -313,6 +313,7 @@ impl Check for Work {
         let mut v = vec![];
         let mut probs = PROBLEMS12.to_vec();
         probs.push("rest");
+        probs.extend(["rest-at-origin", "decay-at-origin", "oscillator-at-origin"]);
         for &solver in &ADAPTIVE {
             for p in &probs {
                 for &tol in &t.pick(vec![1e-3, 1e-7], vec![1e-3, 1e-5, 1e-7, 1e-9]) {
